@@ -289,7 +289,7 @@ def f_cite_opt(rng, W, ctx):
 
 def f_specials(rng, W, ctx):
     a = W.words(5)
-    s = ("%s -- %s --- ``%s'' %s~%s\\,x \\dots{} \\& \\%% \\$.\n" % tuple(a))
+    s = ("%s -- %s --- ``%s'' %s~%s\\,x \\dots{} \\& \\%% \\$ + 1=2; \\#3?\n" % tuple(a))
     return frag('specials', s, a)
 
 
